@@ -10,8 +10,10 @@ def analytic_psi_grad(cfg):
     """(psi, dpsi/dR, dpsi/dZ) as analytic functions for the tokamak families; None otherwise"""
     if cfg.get("family", "tokamak") != "tokamak":
         return None
+    if cfg.get("options", {}).get("psi_interpolation_method", "spline") != "spline":
+        return None      # the grid follows the contours of the chosen interpolant: use the equilibrium object's own psi (callers fall back)
     geom = cfg["geometry"]
-    sgn = cfg.get("psi_sign", 1.0)
+    sgn = cfg.get("psi_sign", 1.0) * cfg.get("psi_scale", 1.0)
     mir = -1.0 if cfg.get("mirror") else 1.0
     r0, z0 = E.R0, E.Z0
     lobes = {"lsn": [(1, 0.3 - z0), (1, -0.3 - z0)], "usn": [(1, z0 + 0.3), (1, z0 - 0.3)],
